@@ -564,7 +564,9 @@ package lisp
 //@   assert-at eval~return_fenv.eval(ctx,_body[len(body)-1]) [last-form-is-terminal-unless-macro] fun.FunType != LFunMacro ==> env.Runtime.Stack.Frames[len(env.Runtime.Stack.Frames)-1].Terminal
 //@   ensures  [frames-below-top-keep-their-flags] FLAGSBELOW(env, old(len(env.Runtime.Stack.Frames)) - 1)
 //@   ensures-on-panic [frames-below-top-keep-their-flags-on-panic] FLAGSBELOW(env, old(len(env.Runtime.Stack.Frames)) - 1)
-//@   property C05 C02 C09
+//@   loop 1 (_) invariant [the-callers-package-is-remembered] *local("outer") == old(env.Runtime.Package)
+//@   ensures-on-panic [a-cross-package-call-restores-the-callers-package-on-panic] called("Package") && old(env.Runtime.Package.Name) != ret("Package", 0) && old(env.Runtime.Registry.packages)[ret("Package", 0)] != nil ==> env.Runtime.Package == old(env.Runtime.Package)
+//@   property C05 C02 C09 C08
 
 //@ frame writers(LEnv.evalCtx) subset { (*LEnv).call, (*LEnv).call$1, WithContext$1, newEnvN } property C05
 
@@ -610,7 +612,7 @@ package lisp
 //@   ensures-on-panic [balanced-on-panic] BAL(env)
 //@   ensures-on-panic [evalctx-restored-on-panic] preserved(LEnv.evalCtx)
 //@   ensures  [frames-keep-their-flags] FLAGS(env)
-//@   property C05 C09
+//@   property C05 C09 C04
 
 //@ func (*LEnv).FunCall
 //@   keeps LVal.sealed
@@ -620,7 +622,7 @@ package lisp
 //@   ensures-on-panic [balanced-on-panic] BAL(env)
 //@   ensures-on-panic [evalctx-restored-on-panic] preserved(LEnv.evalCtx)
 //@   ensures  [frames-keep-their-flags] FLAGS(env)
-//@   property C05 C09
+//@   property C05 C09 C04
 
 //@ func (*LEnv).FunCallContext
 //@   keeps LVal.sealed
@@ -630,7 +632,7 @@ package lisp
 //@   ensures-on-panic [balanced-on-panic] BAL(env)
 //@   ensures-on-panic [evalctx-restored-on-panic] preserved(LEnv.evalCtx)
 //@   ensures  [frames-keep-their-flags] FLAGS(env)
-//@   property C05 C09
+//@   property C05 C09 C04
 
 //@ func (*LEnv).MacroCall
 //@   keeps LVal.sealed
@@ -640,7 +642,7 @@ package lisp
 //@   ensures-on-panic [balanced-on-panic] BAL(env)
 //@   ensures-on-panic [evalctx-restored-on-panic] preserved(LEnv.evalCtx)
 //@   ensures  [frames-keep-their-flags] FLAGS(env)
-//@   property C05 C09
+//@   property C05 C09 C04
 
 //@ func (*LEnv).SpecialOpCall
 //@   keeps LVal.sealed
@@ -650,7 +652,7 @@ package lisp
 //@   ensures-on-panic [balanced-on-panic] BAL(env)
 //@   ensures-on-panic [evalctx-restored-on-panic] preserved(LEnv.evalCtx)
 //@   ensures  [frames-keep-their-flags] FLAGS(env)
-//@   property C05 C09
+//@   property C05 C09 C04
 
 // ---------------------------------------------------------------- handler-bind / ignore-errors (C05 balance, C06 semantics)
 
